@@ -89,10 +89,16 @@ fn sort_cfgs(out: BTreeSet<Vec<u8>>) -> Vec<Vec<u8>> {
     v
 }
 
+/// levels that write and parse around a megabyte (tens to hundreds of milliseconds per case)
+pub fn is_heavy(level: &str) -> bool {
+    level.starts_with("v655") || level.starts_with("start655") || level.starts_with("n655")
+}
+
 /// Thorough tier: the full product over the `prod` levels of every site, plus every vector over
 /// the extended alphabets `sites_x` with at most `k` sites deviating from the all-empty baseline
-/// and from the full baseline (`full`, the same one the quick tier uses).
-pub fn configs_deep(sites_x: &[Site], prod: &[&[u8]], full: &[u8], k: usize) -> Vec<Vec<u8>> {
+/// and from the full baseline (`full`, the same one the quick tier uses); vectors that hold a
+/// heavy level (see `is_heavy`) are limited to `k_heavy` deviating sites.
+pub fn configs_deep(sites_x: &[Site], prod: &[&[u8]], full: &[u8], k: usize, k_heavy: usize) -> Vec<Vec<u8>> {
     let n = sites_x.len();
     let mut out: BTreeSet<Vec<u8>> = BTreeSet::new();
     let total: u64 = prod.iter().map(|p| p.len() as u64).product();
@@ -107,24 +113,25 @@ pub fn configs_deep(sites_x: &[Site], prod: &[&[u8]], full: &[u8], k: usize) -> 
     }
     let empty: Vec<u8> = vec![0; n];
     for base in [&empty[..], full] {
-        fn rec(sites: &[Site], base: &[u8], cur: &mut Vec<u8>, from: usize, left: usize, out: &mut BTreeSet<Vec<u8>>) {
+        fn rec(sites: &[Site], base: &[u8], heavy_ok: bool, cur: &mut Vec<u8>, from: usize, left: usize, out: &mut BTreeSet<Vec<u8>>) {
             out.insert(cur.clone());
             if left == 0 {
                 return;
             }
             for s in from..sites.len() {
                 for l in 0..sites[s].levels.len() as u8 {
-                    if l == base[s] {
+                    if l == base[s] || (!heavy_ok && is_heavy(sites[s].levels[l as usize])) {
                         continue;
                     }
                     cur[s] = l;
-                    rec(sites, base, cur, s + 1, left - 1, out);
+                    rec(sites, base, heavy_ok, cur, s + 1, left - 1, out);
                 }
                 cur[s] = base[s];
             }
         }
         let mut cur = base.to_vec();
-        rec(sites_x, base, &mut cur, 0, k, &mut out);
+        rec(sites_x, base, false, &mut cur, 0, k, &mut out);
+        rec(sites_x, base, true, &mut cur, 0, k_heavy, &mut out);
     }
     sort_cfgs(out)
 }
@@ -506,22 +513,110 @@ pub fn union_box(groups: &[WmoGroupInfo]) -> BoundingBox {
     b
 }
 
+/// Ladder axes of the thorough tier: one section of a root is replaced by exactly `n` records
+/// (the first n of the 300-record level), or by one record whose string has exactly `n` bytes.
+pub const ROOT_LADDERS: [&str; 15] = [
+    "textures",
+    "materials",
+    "groups",
+    "portals",
+    "portal_vertices",
+    "portal_refs",
+    "visible_lists",
+    "visible_list_len",
+    "lights",
+    "doodad_defs",
+    "doodad_sets",
+    "texture_name_len",
+    "group_name_len",
+    "set_name_len",
+    "skybox_len",
+];
+/// smallest n of a ladder axis (no empty texture / skybox string, see the assumptions)
+pub fn root_ladder_min(axis: &str) -> usize {
+    match axis {
+        "texture_name_len" | "skybox_len" => 1,
+        _ => 0,
+    }
+}
+
 /// cfg indices follow ROOT_SITES / ROOT_SITES_X
 pub fn build_root(cfg: &[u8], version: WmoVersion) -> WmoRoot {
-    let textures = root_textures(cfg[0]);
-    let materials = root_materials(cfg[1], &textures);
-    let groups = root_groups(cfg[2]);
-    let portals = root_portals(cfg[3]);
-    let portal_references = root_portal_refs(cfg[4]);
-    let visible_block_lists = root_visible(cfg[5]);
-    let lights = root_lights(cfg[6]);
-    let doodad_defs = root_doodad_defs(cfg[7]);
-    let doodad_sets = root_doodad_sets(cfg[8]);
-    let skybox = match cfg[9] {
-        0 => None,
-        1 => Some("environments\\stars\\deathskybox.mdx".to_string()),
-        2 => Some("environments\\Himmel\u{df}\\nacht.mdx".to_string()),
-        _ => Some(format!("environments\\{}.mdx", rep('s', 283))),
+    build_root_with(cfg, version, None)
+}
+
+pub fn build_root_with(cfg: &[u8], version: WmoVersion, ladder: Option<(&str, usize)>) -> WmoRoot {
+    let (axis, n) = ladder.unwrap_or(("", 0));
+    let first = |mut v: Vec<String>| {
+        v.truncate(n);
+        v
+    };
+    let textures = match axis {
+        "textures" => first(root_textures(6)),
+        "texture_name_len" => vec![rep('x', n)],
+        _ => root_textures(cfg[0]),
+    };
+    let mut materials = root_materials(if axis == "materials" { 4 } else { cfg[1] }, &textures);
+    if axis == "materials" {
+        materials.truncate(n);
+    }
+    let mut groups = root_groups(if axis == "groups" { 8 } else { cfg[2] });
+    match axis {
+        "groups" => groups.truncate(n),
+        "group_name_len" => {
+            groups = root_groups(1);
+            groups[0].name = rep('g', n);
+        }
+        _ => {}
+    }
+    let mut portals = root_portals(if axis == "portals" { 4 } else { cfg[3] });
+    match axis {
+        "portals" => portals.truncate(n),
+        "portal_vertices" => {
+            portals = root_portals(3);
+            portals[0].vertices.truncate(n);
+        }
+        _ => {}
+    }
+    let mut portal_references = root_portal_refs(if axis == "portal_refs" { 3 } else { cfg[4] });
+    if axis == "portal_refs" {
+        portal_references.truncate(n);
+    }
+    let mut visible_block_lists = root_visible(if axis == "visible_lists" { 4 } else { cfg[5] });
+    match axis {
+        "visible_lists" => visible_block_lists.truncate(n),
+        "visible_list_len" => {
+            visible_block_lists = root_visible(3);
+            visible_block_lists[0].truncate(n);
+        }
+        _ => {}
+    }
+    let mut lights = root_lights(if axis == "lights" { 3 } else { cfg[6] });
+    if axis == "lights" {
+        lights.truncate(n);
+    }
+    let mut doodad_defs = root_doodad_defs(if axis == "doodad_defs" { 5 } else { cfg[7] });
+    if axis == "doodad_defs" {
+        doodad_defs.truncate(n);
+    }
+    let mut doodad_sets = root_doodad_sets(if axis == "doodad_sets" { 6 } else { cfg[8] });
+    match axis {
+        "doodad_sets" => doodad_sets.truncate(n),
+        "set_name_len" => {
+            doodad_sets = root_doodad_sets(1);
+            doodad_sets[0].name = rep('S', n);
+        }
+        _ => {}
+    }
+    let skybox = if axis == "skybox_len" {
+        Some(rep('k', n))
+    } else {
+        match cfg[9] {
+            0 => None,
+            1 => Some("environments\\stars\\deathskybox.mdx".to_string()),
+            2 => Some("environments\\Himmel\u{df}\\nacht.mdx".to_string()),
+            _ => Some(format!("environments\\{}.mdx", rep('s', 283))),
+        }
     };
     let hdr = cfg[10];
     let bounding_box = match hdr {
@@ -583,11 +678,31 @@ fn pts(n: usize, salt: f32) -> Vec<Vec3> {
     (0..n).map(|i| v3(salt + i as f32 * 1.5, -(i as f32) - 0.25 * salt, salt * 2.0 + (i * i) as f32)).collect()
 }
 
+/// Ladder axes of a group: a list with exactly n records; "liquid": n encodes (width, height,
+/// tile list present) as width + 17 * height + 289 * tiles.
+pub const GROUP_LADDERS: [&str; 9] = ["vertices", "normals", "tex_coords", "indices", "batches", "bsp_nodes", "vertex_colors", "doodad_refs", "liquid"];
+pub fn liquid_ladder(n: usize) -> (u32, u32, bool) {
+    ((n % 17) as u32, (n / 17 % 17) as u32, n / 289 == 1)
+}
+
 /// cfg indices follow GROUP_SITES / GROUP_SITES_X
 pub fn build_group(cfg: &[u8]) -> WmoGroup {
+    build_group_with(cfg, None)
+}
+
+pub fn build_group_with(cfg: &[u8], ladder: Option<(&str, usize)>) -> WmoGroup {
+    let (axis, n) = ladder.unwrap_or(("", 0));
+    let site = |name: &str| GROUP_SITES_X.iter().position(|s| s.name == name).unwrap();
+    // a ladder axis takes the first n records of the largest level of its site
+    let mut cfg: Vec<u8> = cfg.to_vec();
+    if !axis.is_empty() && axis != "liquid" {
+        cfg[site(axis)] = 4;
+    }
+    let lad = |name: &str, full: usize| if axis == name { n } else { full };
+    let cfg = &cfg[..];
     let cnt = |l: u8| [0usize, 1, 4, 300, 65537][l as usize];
-    let vertices = pts(cnt(cfg[0]), 1.0);
-    let normals: Vec<Vec3> = (0..cnt(cfg[1]))
+    let vertices = pts(lad("vertices", cnt(cfg[0])), 1.0);
+    let normals: Vec<Vec3> = (0..lad("normals", cnt(cfg[1])))
         .map(|i| {
             if i < 4 {
                 [v3(0.0, 0.0, 1.0), v3(0.0, -1.0, 0.0), v3(0.6, 0.8, 0.0), v3(-1.0, 0.0, 0.0)][i]
@@ -597,14 +712,17 @@ pub fn build_group(cfg: &[u8]) -> WmoGroup {
             }
         })
         .collect();
-    let tex_coords: Vec<TexCoord> = (0..cnt(cfg[2])).map(|i| TexCoord { u: 0.25 * i as f32, v: 1.0 - 0.125 * i as f32 }).collect();
-    let indices: Vec<u16> = match cfg[3] {
+    let tex_coords: Vec<TexCoord> = (0..lad("tex_coords", cnt(cfg[2]))).map(|i| TexCoord { u: 0.25 * i as f32, v: 1.0 - 0.125 * i as f32 }).collect();
+    let mut indices: Vec<u16> = match cfg[3] {
         0 => vec![],
         1 => vec![0, 1, 2],
         2 => vec![0, 1, 2, 2, 1, 3, 3, 0, 0xFFFE],
         3 => (0..300u32).map(|i| (i * 7 % 300) as u16).collect(),
         _ => (0..65538u32).map(|i| (i.wrapping_mul(40503) & 0xFFFF) as u16).collect(),
     };
+    if axis == "indices" {
+        indices.truncate(n);
+    }
     let mkb = |i: usize| WmoBatch {
         flags: [[0u8; 10], [1, 2, 3, 4, 5, 6, 7, 8, 9, 10], [0xFF; 10]][i],
         material_id: [0u16, 7, 255][i],
@@ -614,7 +732,7 @@ pub fn build_group(cfg: &[u8]) -> WmoGroup {
         end_vertex: [2u16, 3, 0xFFFE][i],
         use_large_material_id: false,
     };
-    let batches: Vec<WmoBatch> = match cfg[4] {
+    let mut batches: Vec<WmoBatch> = match cfg[4] {
         0 => vec![],
         1 => vec![mkb(1)],
         2 => vec![mkb(0), mkb(1), mkb(2)],
@@ -635,6 +753,9 @@ pub fn build_group(cfg: &[u8]) -> WmoGroup {
             })
             .collect(),
     };
+    if axis == "batches" {
+        batches.truncate(n);
+    }
     let mkn = |i: usize| WmoBspNode {
         plane: WmoPlane { normal: [v3(1.0, 0.0, 0.0), v3(0.0, 1.0, 0.0), v3(0.0, 0.0, 1.0)][i], distance: [0.5f32, -12.25, 300.0][i] },
         children: [[1i16, 2], [-1, -1], [-1, 0x7FFF]][i],
@@ -642,7 +763,7 @@ pub fn build_group(cfg: &[u8]) -> WmoGroup {
         num_faces: [0u16, 4, 9][i],
     };
     let axis = |i: usize| [v3(1.0, 0.0, 0.0), v3(0.0, 1.0, 0.0), v3(0.0, 0.0, 1.0), v3(-1.0, 0.0, 0.0), v3(0.0, -1.0, 0.0), v3(0.0, 0.0, -1.0)][i % 6];
-    let bsp_nodes = match cfg[5] {
+    let mut bsp_nodes = match cfg[5] {
         0 => None,
         1 => Some(vec![mkn(1)]),
         2 => Some(vec![mkn(0), mkn(1), mkn(2)]),
@@ -668,10 +789,15 @@ pub fn build_group(cfg: &[u8]) -> WmoGroup {
                 .collect(),
         ),
     };
+    if axis == "bsp_nodes" {
+        if let Some(b) = bsp_nodes.as_mut() {
+            b.truncate(n);
+        }
+    }
     let vertex_colors = match cfg[6] {
         0 => None,
         l => Some(
-            (0..cnt(l))
+            (0..lad("vertex_colors", cnt(l)))
                 .map(|i| {
                     let b = (i & 0xFF) as u8;
                     col(10u8.wrapping_add(b), 20u8.wrapping_add(b), 30u8.wrapping_add(b), 255u8.wrapping_sub(b))
@@ -690,6 +816,10 @@ pub fn build_group(cfg: &[u8]) -> WmoGroup {
         tile_flags: if tiles { Some((0..(w.saturating_sub(1) * h.saturating_sub(1)) as usize).map(|i| 0x40u8.wrapping_add(i as u8)).collect()) } else { None },
     };
     let liquid = match cfg[7] {
+        _ if axis == "liquid" => {
+            let (w, h, t) = liquid_ladder(n);
+            Some(liq(w, h, t))
+        }
         0 => None,
         1 => Some(liq(1, 1, false)),
         2 => Some(liq(3, 2, true)),
@@ -707,13 +837,18 @@ pub fn build_group(cfg: &[u8]) -> WmoGroup {
         }
         _ => Some(liq(257, 3, true)),
     };
-    let doodad_refs = match cfg[8] {
+    let mut doodad_refs = match cfg[8] {
         0 => None,
         1 => Some(vec![5u16]),
         2 => Some(vec![0u16, 0xFFFE, 3]),
         3 => Some((0..300u32).map(|i| (i * 11 % 300) as u16).collect()),
         _ => Some((0..65537u32).map(|i| (i & 0xFFFF) as u16).collect()),
     };
+    if axis == "doodad_refs" {
+        if let Some(d) = doodad_refs.as_mut() {
+            d.truncate(n);
+        }
+    }
     let header = match cfg[9] {
         0 => WmoGroupHeader { flags: WmoGroupFlags::empty(), bounding_box: bbox((0.0, 0.0, 0.0), (0.0, 0.0, 0.0)), name_offset: 0, group_index: 0 },
         1 => WmoGroupHeader {
